@@ -1,0 +1,10 @@
+//go:build verif
+
+package linkedliststack
+
+import "github.com/emirpasic/gods/v2/lists/singlylinkedlist"
+
+// VerifInner returns the backing linked list.
+func (stack *Stack[T]) VerifInner() *singlylinkedlist.List[T] {
+	return stack.list
+}
